@@ -23,6 +23,7 @@ func init() {
 }
 
 func checkC05(c *Ctx) {
+	c05OnceFlagOnlyNarrowed(c)
 	checkC05ArcTypes(c)
 	checkC05ConjunctIdentity(c)
 	checkC05RecursiveClosedness(c)
@@ -371,4 +372,58 @@ func checkC05RecursiveClosedness(c *Ctx) {
 	}
 	c.check("closedness.recursive-flag-propagated", f.Name, f.Decl.Pos(), ok,
 		"when addResolver activates the requirement of an enclosing struct literal for an embedded definition, it must mark it recursive iff the definition is recursively closed (v.ClosedRecursive): "+det)
+}
+
+// c05OnceFlagOnlyNarrowed: while merging the requirement sets of a node,
+// `once` ("this definition needs to be satisfied only at this level, not
+// recursively") is evidence accumulated over all conjuncts: as soon as one
+// conjunct makes the requirement recursive it must stay recursive. Outside the
+// branch that revives an ignored entry, an assignment to `.once` must
+// therefore be conjunctive — its right-hand side mentions `.once` itself.
+func c05OnceFlagOnlyNarrowed(c *Ctx) {
+	const rule = "closedness.once-flag-only-narrowed"
+	n := 0
+	for _, f := range c.funcs(c.pkg(adtP)) {
+		if f.Decl == nil {
+			continue
+		}
+		var stack []ast.Node
+		k := 0
+		ast.Inspect(f.Body, func(x ast.Node) bool {
+			if x == nil {
+				stack = stack[:len(stack)-1]
+				return true
+			}
+			stack = append(stack, x)
+			as, ok := x.(*ast.AssignStmt)
+			if !ok || len(as.Lhs) != 1 || len(as.Rhs) != 1 || as.Tok != token.ASSIGN {
+				return true
+			}
+			lhs := exprString(as.Lhs[0])
+			if !strings.HasSuffix(lhs, ".once") || !strings.Contains(lhs, "[") {
+				return true
+			}
+			// only the merge loop: the element is an entry of a slice that also has .ignored
+			reviving := false
+			for i := len(stack) - 2; i >= 0; i-- {
+				if is, ok := stack[i].(*ast.IfStmt); ok && strings.HasSuffix(exprString(is.Cond), ".ignored") {
+					// in the then-branch?
+					if is.Body.Pos() <= as.Pos() && as.End() <= is.Body.End() {
+						reviving = true
+					}
+				}
+			}
+			k++
+			n++
+			if reviving {
+				c.check(rule, fmt.Sprintf("%s#%d", f.Name, k), as.Pos(), true, "an ignored entry is revived: its once flag is set afresh")
+				return true
+			}
+			conj := strings.Contains(exprString(as.Rhs[0]), ".once")
+			c.check(rule, fmt.Sprintf("%s#%d", f.Name, k), as.Pos(), conj,
+				"outside the branch that revives an ignored entry, the once flag of a requirement may only be narrowed (`x.once = x.once && …`): overwriting it lets a later non-recursive conjunct reopen a requirement an earlier conjunct made recursive, and fields below a closed definition are accepted")
+			return true
+		})
+	}
+	c.expect(rule, 2)
 }
